@@ -119,6 +119,22 @@ EXTRA = {
     'C19': ('The tagged loader is evaluated on stand-in suites (list mode x item kind, nested suites) and the pytest option table with a recording parser (CHECKMODE, FLAGS).', _EVAL),
     'C08': ('quoted() evaluated per dialect on names holding every delimiter (SQLQ).', _EVAL),
 }
+EXTRA2 = {
+    'C02': 'Verdict statistics come from the values present, never from declared categorical levels (OBSERVED).',
+    'C03': 'extract() itself evaluated end to end on a corpus of example sets and options, also with the smallest sampling sizes and variable-length fragments: every example is matched in full by a returned expression, judged by Python re (EXTRACT).',
+    'C05': 'types_match evaluated on 21 dtype names x 4 levels: name equality at the default and strict levels, no level equates numbers, dates and declared text (TYPELEVEL); row counts are taken after the condition filter and the sort (ROWSAFTER).',
+    'C08': 'The database discoverer and verifier are the shared base classes: the discovery grid, the discover->verify closed loop and the .tdda text rules apply (DISCOVERY, LOOP, STRIP).',
+    'C11': 'copy_reference_files evaluated over three runs with colliding names records the run-1 copy for the generated test (REFMAP).',
+    'C12': 'The string-against-file comparison keeps every character of a line (SPLIT), so a change that is only trailing blanks still fails the generated test.',
+    'C13': 'Every expression extract() returns on the corpus compiles, is anchored (final $ not an escaped literal), matches an example, and tagging only adds parentheses, also for the grep and portable dialects (EXTRACT).',
+    'C14': 'extract() returns the same list for reversed, rotated and dictionary input, with and without a seed and with sampling in force, and restores the global generator (EXTRACT); module-level entry points hand their seed on (SEEDFWD).',
+    'C17': 'The detection output file left on disk is the library\'s decision (OUTFILE, shared with C06).',
+    'C19': 'The tagged loader only narrows what unittest selected (-k, method prefix) and keeps no class-level memory between loaders (LOADER, NOSHARED).',
+}
+for _k, _t in EXTRA2.items():
+    CLAIMS[_k]['text'] = CLAIMS[_k]['text'].rstrip() + ' ' + _t
+    if _EVAL not in CLAIMS[_k]['technique']:
+        CLAIMS[_k]['technique'] = CLAIMS[_k]['technique'] + '; ' + _EVAL
 for _k, (_t, _q) in EXTRA.items():
     CLAIMS[_k]['text'] = CLAIMS[_k]['text'].rstrip() + ' ' + _t
     if _q not in CLAIMS[_k]['technique']:
